@@ -77,7 +77,10 @@ func Ask(ctx context.Context, to *PID, message any, timeout time.Duration) (resp
 	case response = <-responseCh:
 		verifhook.At("ask.woke", receiveContext, 1, 0)
 		timers.Put(timer)
-		receiveContext.responseClosed.Store(true)
+		// The reply has been consumed, so the only Response that passed the
+		// responseClosed guard is done with the channel. receiveContext itself
+		// must not be touched any more: the mailbox may already have recycled
+		// it into another Ask.
 		putResponseChannel(responseCh)
 		return
 	case <-ctx.Done():
@@ -85,16 +88,20 @@ func Ask(ctx context.Context, to *PID, message any, timeout time.Duration) (resp
 		err = errors.Join(ctx.Err(), gerrors.ErrRequestTimeout)
 		to.handleReceivedErrorWithMessage(noSender, message, err)
 		timers.Put(timer)
-		receiveContext.responseClosed.Store(true)
-		putResponseChannel(responseCh)
+		// The target may still reply: it may be past the responseClosed guard
+		// already, and receiveContext may have been recycled into another Ask.
+		// Leave both alone and let the reply channel be garbage collected
+		// instead of handing it to the next caller.
 		return nil, err
 	case <-timer.C:
 		verifhook.At("ask.woke", receiveContext, 3, 0)
 		err = gerrors.ErrRequestTimeout
 		to.handleReceivedErrorWithMessage(noSender, message, err)
 		timers.Put(timer)
-		receiveContext.responseClosed.Store(true)
-		putResponseChannel(responseCh)
+		// The target may still reply: it may be past the responseClosed guard
+		// already, and receiveContext may have been recycled into another Ask.
+		// Leave both alone and let the reply channel be garbage collected
+		// instead of handing it to the next caller.
 		return
 	}
 }
